@@ -4,6 +4,6 @@ go 1.23
 
 require github.com/martian-lang/martian v0.0.0
 
-require golang.org/x/sys v0.30.0 // indirect
+require golang.org/x/sys v0.30.0
 
 replace github.com/martian-lang/martian => /repo
